@@ -43,6 +43,9 @@ func (f *Isqrt) Call(s *slip.Scope, args slip.List, depth int) (result slip.Obje
 	slip.CheckArgCount(s, depth, f, args, 1, 1)
 	switch ta := args[0].(type) {
 	case *slip.Bignum:
+		if (*big.Int)(ta).Sign() < 0 {
+			slip.ArithmeticPanic(s, depth, f, args, "only non-negative values are allowed")
+		}
 		if root := new(big.Int).Sqrt((*big.Int)(ta)); root.IsInt64() {
 			result = slip.Fixnum(root.Int64())
 		} else {
